@@ -451,6 +451,168 @@ func c16Outline(c *Ctx, fd *ast.FuncDecl) ([]string, bool) {
 	return out, true
 }
 
+// ---- shared state of the JSON writers (for the goroutine argument): package-level variables of pkg/minijson,
+// writes to them, and how the functions that build a view use their builder object.
+
+// c16PackageVars: names of all package-level `var`s of the files (const/type/func are not state).
+func c16PackageVars(c *Ctx, files []string) ([]string, bool) {
+	var out []string
+	for _, rel := range files {
+		f := c.File(rel)
+		if f == nil {
+			return nil, false
+		}
+		for _, d := range f.Decls {
+			gd, ok := d.(*ast.GenDecl)
+			if !ok || gd.Tok != token.VAR {
+				continue
+			}
+			for _, sp := range gd.Specs {
+				if vs, ok := sp.(*ast.ValueSpec); ok {
+					for _, n := range vs.Names {
+						out = append(out, n.Name)
+					}
+				}
+			}
+		}
+	}
+	return out, true
+}
+
+// c16WritesTo: statements in the files that may modify the package variable `name`: assignment / inc-dec whose
+// target is `name` or an index/slice/field of it, `&name`, or `name` passed whole to a call (other than len/cap).
+func c16WritesTo(c *Ctx, files []string, name string) ([]string, bool) {
+	var out []string
+	root := func(e ast.Expr) bool {
+		for {
+			switch v := e.(type) {
+			case *ast.Ident:
+				return v.Name == name
+			case *ast.IndexExpr:
+				e = v.X
+			case *ast.SliceExpr:
+				e = v.X
+			case *ast.SelectorExpr:
+				e = v.X
+			case *ast.ParenExpr:
+				e = v.X
+			case *ast.StarExpr:
+				e = v.X
+			default:
+				return false
+			}
+		}
+	}
+	for _, rel := range files {
+		f := c.File(rel)
+		if f == nil {
+			return nil, false
+		}
+		for _, d := range f.Decls {
+			fd, ok := d.(*ast.FuncDecl)
+			if !ok || fd.Body == nil {
+				continue
+			}
+			ast.Inspect(fd.Body, func(n ast.Node) bool {
+				switch v := n.(type) {
+				case *ast.AssignStmt:
+					for _, l := range v.Lhs {
+						if root(l) {
+							out = append(out, fd.Name.Name+":"+strings.Join(strings.Fields(c.Print(v)), ""))
+						}
+					}
+				case *ast.IncDecStmt:
+					if root(v.X) {
+						out = append(out, fd.Name.Name+":"+strings.Join(strings.Fields(c.Print(v)), ""))
+					}
+				case *ast.UnaryExpr:
+					if v.Op == token.AND && root(v.X) {
+						out = append(out, fd.Name.Name+":&"+name)
+					}
+				case *ast.RangeStmt:
+					if (v.Key != nil && root(v.Key)) || (v.Value != nil && root(v.Value)) {
+						out = append(out, fd.Name.Name+":range-target")
+					}
+				case *ast.CallExpr:
+					if id, ok := v.Fun.(*ast.Ident); ok && (id.Name == "len" || id.Name == "cap") {
+						return true
+					}
+					for _, a := range v.Args {
+						if id, ok := a.(*ast.Ident); ok && id.Name == name {
+							out = append(out, fd.Name.Name+":passed-to-"+strings.Join(strings.Fields(c.Print(v.Fun)), ""))
+						}
+					}
+				}
+				return true
+			})
+		}
+	}
+	return out, true
+}
+
+// c16BuilderUses: in fd, the local variable declared `var <v> [pkg.]JsonObjectBuilder` and every use of it, classified:
+// "call:<Method>" for `<v>.<Method>(...)`; anything else (address taken, passed, assigned, captured by a closure or
+// a go statement) is reported verbatim as "other:<text>".
+func c16BuilderUses(c *Ctx, fd *ast.FuncDecl) ([]string, bool) {
+	if fd == nil || fd.Body == nil {
+		return nil, false
+	}
+	name := ""
+	ast.Inspect(fd.Body, func(n ast.Node) bool {
+		ds, ok := n.(*ast.DeclStmt)
+		if !ok {
+			return true
+		}
+		gd, ok := ds.Decl.(*ast.GenDecl)
+		if !ok || gd.Tok != token.VAR {
+			return true
+		}
+		for _, sp := range gd.Specs {
+			vs, ok := sp.(*ast.ValueSpec)
+			if !ok || vs.Type == nil || len(vs.Names) != 1 {
+				continue
+			}
+			t := strings.Join(strings.Fields(c.Print(vs.Type)), "")
+			if t == "JsonObjectBuilder" || t == "minijson.JsonObjectBuilder" {
+				name = vs.Names[0].Name
+			}
+		}
+		return true
+	})
+	if name == "" {
+		return nil, false
+	}
+	out := []string{"local:" + name}
+	handled := map[*ast.Ident]bool{}
+	ast.Inspect(fd.Body, func(n ast.Node) bool {
+		switch v := n.(type) {
+		case *ast.GoStmt:
+			out = append(out, "other:go-statement")
+		case *ast.FuncLit:
+			out = append(out, "other:closure")
+		case *ast.ValueSpec:
+			for _, id := range v.Names {
+				handled[id] = true
+			}
+		case *ast.CallExpr:
+			if sel, ok := v.Fun.(*ast.SelectorExpr); ok {
+				if id, ok := sel.X.(*ast.Ident); ok && id.Name == name {
+					handled[id] = true
+					out = append(out, "call:"+sel.Sel.Name)
+				}
+			}
+		}
+		return true
+	})
+	ast.Inspect(fd.Body, func(n ast.Node) bool {
+		if id, ok := n.(*ast.Ident); ok && id.Name == name && !handled[id] {
+			out = append(out, "other:"+name)
+		}
+		return true
+	})
+	return out, true
+}
+
 func init() {
 	RegisterGen("C16", func(c *Ctx) string {
 		const mj = "pkg/minijson/minijson.go"
@@ -513,6 +675,40 @@ func init() {
 				fmt.Fprintf(&sb, "/-- control skeleton of `%s` (%s): statement texts without white space, blocks bracketed -/\ndef %s : List String :=\n  %s\n\n", it.fn, it.file, it.lean, leanStrList(l))
 			} else {
 				sb.WriteString(untranslatable(it.lean))
+			}
+		}
+
+		mjFiles := []string{mj, "pkg/minijson/util.go"}
+		if vars, ok := c16PackageVars(c, mjFiles); ok {
+			fmt.Fprintf(&sb, "/-- every package-level `var` of pkg/minijson (minijson.go, util.go) -/\ndef packageVars : List String := %s\n\n", leanStrList(vars))
+			var writes []string
+			for _, v := range vars {
+				w, _ := c16WritesTo(c, mjFiles, v)
+				writes = append(writes, w...)
+			}
+			fmt.Fprintf(&sb, "/-- statements of pkg/minijson that may modify one of them (assignment to it or to an element, `&v`, `v` passed whole) -/\ndef packageVarWrites : List String := %s\n\n", leanStrList(writes))
+		} else {
+			sb.WriteString(untranslatable("packageVars"))
+		}
+		{
+			var rows []string
+			okAll := true
+			for _, it := range []struct{ file, fn string }{
+				{ctxFile, "SliceSpaceExpressionContext.json"},
+				{"cmd/expressions.go", "buildSpecialKeyJson"},
+				{"pkg/minijson/util.go", "MarshalStringMapInferred"},
+			} {
+				u, ok := c16BuilderUses(c, c.Func(it.file, it.fn))
+				if !ok {
+					okAll = false
+					break
+				}
+				rows = append(rows, fmt.Sprintf("(%s, %s)", leanStr(it.fn), leanStrList(u)))
+			}
+			if okAll {
+				fmt.Fprintf(&sb, "/-- per view-building function: its `JsonObjectBuilder` and every use of it (`call:<method>`; anything else – address taken, passed on, captured by a closure or goroutine – as `other:…`) -/\ndef builderUses : List (String × List String) :=\n  [%s]\n\n", strings.Join(rows, ",\n   "))
+			} else {
+				sb.WriteString(untranslatable("builderUses"))
 			}
 		}
 
